@@ -652,6 +652,10 @@ def gen_sysm(rng, idx, big=False):
         if c < 0.18 or nsys == 0:
             L.append(['S', 'new'])
             nsys += 1
+        elif c < 0.22:
+            k = rng.randint(1, 3)
+            L.append(['S', 'multi', str(k)])      # simulate_multiple_times in the calling thread
+            nsys += k
         elif c < 0.55:
             L.append(['S', 'asset', rng.choice(classes), str(rng.randrange(4))])
             nassets += 1
@@ -678,13 +682,26 @@ def gen_sysi(rng, idx, big=False):
     exactly once."""
     L = [['scenario', str(idx)], ['S', 'new']]
     classes = ['handler', 'processor', 'sink', 'buffer', 'source', 'maint']
+    nmin = 0          # a lower bound of the number of assets that certainly exist
     for _ in range(rng.randint(1, 5)):
-        if rng.random() < 0.5:
+        c = rng.random()
+        if c < 0.4:
             L.append(['S', 'asset', 'maker', str(rng.randint(1, 4)), str(rng.choice([1, 1, 2, 3]))])
+            nmin += 1
+        elif c < 0.6:
+            # helpers constructed inside a constructor: registration order differs from id order
+            k = rng.randint(1, 3)
+            L.append(['S', 'asset', 'nester', str(k)])
+            nmin += k + 1
         else:
             L.append(['S', 'asset', rng.choice(classes), str(rng.randrange(1, 4))])
+            nmin += 1
+        if rng.random() < 0.5:
+            L.append(['S', 'find', '0', '-', str(rng.randrange(nmin)), '-', '-'])
     L.append(['S', 'simulate', '0'])
     L.append(['S', 'counts'])
+    for _ in range(rng.randint(0, 3)):
+        L.append(['S', 'find', '0', '-', str(rng.randrange(nmin)), '-', '-'])
     for _ in range(rng.randint(0, 3)):
         if rng.random() < 0.5:
             L.append(['S', 'asset', 'maker', str(rng.randint(1, 3)), str(rng.choice([1, 2]))])
